@@ -3,6 +3,7 @@ import ast
 
 from ..core import RuleResult, need
 from ..cfg import cfg_of
+from .checker_blocks import check_item_func
 from ..flow import flow_of, access_path, path_base
 from ..astutil import (src, walk_no_nested, call_attr, call_name, returns_of, compare_parts,
                        names_in, is_name, path_of, comparison_holding)
@@ -366,7 +367,7 @@ def blind_kinds(func):
 # ---------------------------------------------------------------------- K4
 def rule_k4(repo):
     res = RuleResult('C01.K4', 'every accepted step passes the type check of its sequent', floor=2)
-    func = repo.func(THEORY, 'Theory._check_proof_item')
+    func = check_item_func(repo)
     cfg = cfg_of(func.node)
     seq = func.params()[2]
     checks = []
@@ -453,7 +454,7 @@ def rule_k5(repo):
 # ---------------------------------------------------------------------- K6 / K7
 def rule_k6(repo):
     res = RuleResult('C01.K6', 'the derived sequent of a step comes only from the theory, a primitive rule, a macro, or a checked sub-proof', floor=6)
-    func = repo.func(THEORY, 'Theory._check_proof_item')
+    func = check_item_func(repo)
     cfg = cfg_of(func.node)
     flow = flow_of(func.node)
     params = func.params()
@@ -500,6 +501,13 @@ def rule_k6(repo):
     return res
 
 
+def _from_cited(flow, expr, prf, seq):
+    """expr is made of the step's argument and of what was read from the cited steps, nothing else"""
+    roots = {r for r in flow.resolve(expr) if not r.startswith(('zip()', 'enumerate()', 'list()', 'tuple()', 'range()', 'len()'))}
+    ok = (seq + '.args', seq + '.prevs', prf + '.find_item()')
+    return bool(roots) and all(r.startswith(ok) for r in roots)
+
+
 def _classify_source(repo, func, cfg, flow, node, v, seq):
     if isinstance(v, ast.Call):
         nm = call_name(v)
@@ -514,8 +522,7 @@ def _classify_source(repo, func, cfg, flow, node, v, seq):
                             path_of(r.slice) == seq + '.rule' for k, r in defs):
                 # arguments: only seq.args and the cited theorems
                 for a in v.args:
-                    ap = path_of(a.value if isinstance(a, ast.Starred) else a)
-                    if ap not in (seq + '.args', 'prev_ths'):
+                    if not _from_cited(flow, a.value if isinstance(a, ast.Starred) else a, func.params()[1], seq):
                         return None
                 return 'primitive rule'
             return None
@@ -523,8 +530,7 @@ def _classify_source(repo, func, cfg, flow, node, v, seq):
             defs = flow.defs.get(v.func.value.id, [])
             if defs and all(k == 'value' and isinstance(r, ast.Call) and call_name(r) == 'get_macro' and
                             [path_of(a) for a in r.args] == [seq + '.rule'] for k, r in defs):
-                args = [path_of(a) for a in v.args]
-                if args == [seq + '.args', 'prev_ths']:
+                if len(v.args) == 2 and path_of(v.args[0]) == seq + '.args' and _from_cited(flow, v.args[1], func.params()[1], seq):
                     return 'macro evaluation'
             return None
         return None
@@ -660,7 +666,7 @@ def rule_k11(repo):
     a *premise*, and a theorem object written into the proof is used as if it had been derived.  The
     argument must therefore be tested against the table's class before the call."""
     res = RuleResult('C01.K11', 'the step checker tests the argument of a primitive step against the class given in the dispatch table before calling the rule', floor=1)
-    f = repo.func(THEORY, 'Theory._check_proof_item')
+    f = check_item_func(repo)
     cfg = cfg_of(f.node)
     unp = [n for n in cfg.stmt_nodes(ast.Assign) if isinstance(n.ast.value, ast.Subscript) and is_name(n.ast.value.value, 'primitive_deriv') and
            isinstance(n.ast.targets[0], ast.Tuple) and len(n.ast.targets[0].elts) == 2]
